@@ -535,17 +535,25 @@ def rule_share(ctx) -> None:
     ef = Effects(ctx, depth=4, hints={"store": "clematis.graph.store:InMemoryGraphStore"})
     effs = ef.of(inner)
     bad = []
+    cache_puts = []
     for e in effs:
         if e.kind not in ("mutate", "global-write"):
             continue
         if e.origin in ("fresh", "unknown"):
             continue
-        # the stage cache is shared by design and only touched through its lock wrapper's put/get
+        # the stage cache is shared by design and only touched through its lock wrapper's put/get: no lost update - but the
+        # ORDER of the puts is the completion order of the thunks, and a bounded LRU evicts by insertion order
         if ("cache" in e.desc and ".put(" in e.desc) and (e.origin.startswith("global:" + T1) or e.origin == "free:cache"):
+            cache_puts.append(e)
             continue
         bad.append(e)
     ctx.check(not bad, "C09.SHARE", f"{inner.qual}/no-shared-writes", inner.loc(), "the per-graph thunk writes only locals and the lock-wrapped stage cache",
               f"the per-graph thunk writes state shared between tasks: {bad[0].fmt() if bad else ''}")
+    if cache_puts:
+        ctx.violation("C09.SHARE", f"{inner.qual}/stage-cache-filled-in-completion-order", inner.loc(),
+                      f"the per-graph thunk stores its result in the shared, bounded stage cache itself ({cache_puts[0].fmt()[:80]}): on the parallel path the puts happen in completion order, on the "
+                      "sequential path in active_graphs order, and a bounded LRU evicts by insertion order - which entries survive, and so the cache_hits / cache_misses counters of the NEXT call, "
+                      "depend on which thread finished last")
     # the cache object handed to thunks is a lock wrapper
     gc = ctx.func(T1 + ":_get_cache")
     ctors = [c for c in walk_no_defs(gc.node) if isinstance(c, ast.Call) and call_tail(c) in ("LRUCache", "LRUBytes")]
